@@ -133,22 +133,35 @@ def polyline_points(prog, rep):
                 probs.append("the path without a further segment must end the iteration (None) without effects; returns %s" % show(sm.ret, maxd=3))
             continue
         n_load += 1
-        sf = ("call", "*::split_first", "_", (selff("vertices"),))
-        start = ("field", ("payload", sf), 0)
-        rest = ("field", ("payload", sf), 1)
-        end = ("payload", ("call", "*::first", "_", (rest,)))
         tr = selff("translate")
-        w = {repr(x[1]): x[2] for x in writes}
+        from mirq.origin import subst as _subst
+        place = lambda t: _subst(t, lambda n: n[1] if n[0] in ("update", "mut") else None)
+        w = {repr(place(x[1])): x[2] for x in writes}
         wv, ws = w.get(repr(selff("vertices"))), w.get(repr(selff("segment_iter")))
-        seg = ("call", "*::points", "_", (("call", "*Line::new", "_", (("call", "*Add>::add", "_", (start, tr)), ("call", "*Add>::add", "_", (end, tr)))),))
-        if len(writes) != 2 or wv is None or match(wv, rest) is None:
+        # the two spellings of "the first two remaining vertices and the rest after the first": split_first + first, or the
+        # slice patterns `[start, rest @ ..]` / `[end, ..]` (which the summaries show as first(v) / v[1..])
+        sf = ("call", "*::split_first", "_", (selff("vertices"),))
+        rest_b = ("proj", selff("vertices"), ("sub", 1, 0, True))
+        forms = ((("field", ("payload", sf), 0), ("field", ("payload", sf), 1), sf),
+                 (("payload", ("call", "*::first", "_", (selff("vertices"),))), rest_b, ("call", "*::first", "_", (selff("vertices"),))))
+        form_ok = False
+        seg_ok = False
+        guards_ok = False
+        for start, rest, g1 in forms:
+            end = ("payload", ("call", "*::first", "_", (rest,)))
+            seg = ("call", "*::points", "_", (("call", "*Line::new", "_", (("call", "*Add>::add", "_", (start, tr)), ("call", "*Add>::add", "_", (end, tr)))),))
+            if len(writes) == 2 and wv is not None and match(strip_refs(wv), rest) is not None:
+                form_ok = True
+            if ws is not None and match(ws, seg) is not None:
+                seg_ok = True
+            if any(fct[0] == "variant" and fct[2] == ("Some",) and match(fct[1], g1) is not None for fct in sm.facts) and \
+                    any(fct[0] == "variant" and fct[2] == ("Some",) and match(fct[1], ("call", "*::first", "_", (rest,))) is not None for fct in sm.facts):
+                guards_ok = True
+        if not form_ok:
             adv_ok = False
-        if ws is None or match(ws, seg) is None:
+        if not seg_ok:
             probs.append("the next segment must be Line::new(start + translate, end + translate) of the next two vertices; found %s" % (show(ws, maxd=5) if ws else None))
-        need = [("variant", x, ("Some",)) for x in ()]
-        has_guards = any(fct[0] == "variant" and fct[2] == ("Some",) and match(fct[1], sf) is not None for fct in sm.facts) and \
-            any(fct[0] == "variant" and fct[2] == ("Some",) and match(fct[1], ("call", "*::first", "_", (rest,))) is not None for fct in sm.facts)
-        if not has_guards:
+        if not guards_ok:
             probs.append("a segment is loaded without two remaining vertices")
         # the item: the polyline iterator itself, joint skipped
         re_enter = [e[1] for e in sm.calls() if e[1][1].split("::")[-1] == "nth" and e[1][3] and e[1][3][0] == P(1, "self") and e[1][3][1] == ("const", 1)]
